@@ -108,7 +108,8 @@ func verifyRawCerts(rawCerts [][]byte, certHashes []multihash.DecodedMultihash) 
 	if len(rawCerts) < 1 {
 		return errors.New("no cert")
 	}
-	leaf := rawCerts[len(rawCerts)-1]
+	// The server certificate, i.e. the one whose key authenticates the TLS handshake, comes first.
+	leaf := rawCerts[0]
 	// The W3C WebTransport specification currently only allows SHA-256 certificates for serverCertificateHashes.
 	hash := sha256.Sum256(leaf)
 	var verified bool
